@@ -6,7 +6,8 @@ policy with a distinct, exactly representable delay per attempt count, and prepa
 of four modes (none / sync ok / sync raising on odd connections / Deferred fired by the scheduler).
 (plus Deferreds that have already fired when prepareConnection returns them), and optionally an
 endpoint that ignores cancellation (a cancelled attempt is later resolved with a connection or a
-failure anyway).  Actions: start, stop, whenConnected(None|1|2; 3 in the random walks), attempt ok/fail, drop connection i, prepare ok/fail,
+failure anyway), and optionally ('lostraises') an application protocol whose own connectionLost()
+raises - the harness transport swallows that as a real transport logs it, and every obligation stays.  Actions: start, stop, whenConnected(None|1|2; 3 in the random walks), attempt ok/fail, drop connection i, prepare ok/fail,
 advance the clock to the next timer / half way.  Every action is wrapped: any escaping exception
 (automat NoTransition, RuntimeError ...) and any failure left in the attempt Deferred are events.
 
@@ -49,7 +50,7 @@ ASSUMPTIONS = ["trusted base: fake endpoint/transport/factory, the model of this
 SHARDS = {"quick": 4, "thorough": 16}
 FLOORS = {"connects_checked": 2000, "retry_times_checked": 500, "waiter_fires_checked": 500, "stop_fires_checked": 500,
           "established": 500, "explore_states": 3000, "walk_actions": 2000,
-          "late_resolutions": 200, "fired_prepare_deferreds": 300, "limit_waiters_pending_at_restart": 100}
+          "late_resolutions": 200, "raising_application_connectionLost": 200, "fired_prepare_deferreds": 300, "limit_waiters_pending_at_restart": 100}
 READY = True
 
 
@@ -98,6 +99,11 @@ class Conn:
         return (self.prepare, self.closing, self.current, self.orphan)
 
 
+class AppLostBoom(Exception):
+    """Raised by the application protocol's own connectionLost in the 'lostraises' configurations
+    (a real transport logs it and carries on; the harness transport does the same)."""
+
+
 class Attempt:
     def __init__(self, aid, d, factory):
         self.id = aid
@@ -127,11 +133,16 @@ def _fakes():
         from twisted.internet.protocol import Factory, Protocol
 
         class App(Protocol):
-            pass
+            boom = False
+
+            def connectionLost(self, reason):
+                if self.boom:
+                    raise AppLostBoom("application protocol's connectionLost raises")
 
         class F(Factory):
             def buildProtocol(self, addr):
                 p = App()
+                p.boom = bool(self.world.cfg.get("lostraises"))
                 self.world.last_app = p
                 return p
 
@@ -438,7 +449,10 @@ class World:
                 else:
                     self.events.append(("drop", c, c.current, self.start_pending))
                 c.current = False
-                c.proxy.connectionLost(Failure(c.loss_exc))
+                try:
+                    c.proxy.connectionLost(Failure(c.loss_exc))
+                except AppLostBoom:
+                    self.ctx.count("raising_application_connectionLost")
             elif act in ("prep-ok", "prep-fail"):
                 c = [x for x in self.conns if x.prepare == "pending"][0]
                 ev["context"] = (act, c)
@@ -706,6 +720,7 @@ def shrink(cfg, history, key):
 CONFIGS = [{"prepare": p, "connect": c} for p in ("none", "sync-ok", "sync-raise-odd", "deferred") for c in ("async", "syncfail", "syncok")]
 REENTRANT = {"prepare": "none", "connect": "async", "reentrant": True}
 EXTRA = [{"prepare": "none", "connect": "async", "late": True}, {"prepare": "deferred", "connect": "async", "late": True},
+         {"prepare": "none", "connect": "async", "lostraises": True}, {"prepare": "deferred", "connect": "syncok", "lostraises": True},
          {"prepare": "fired-ok", "connect": "async"}, {"prepare": "fired-fail-odd", "connect": "async"}, {"prepare": "fired-fail-odd", "connect": "syncok"}]
 
 
@@ -731,7 +746,7 @@ def run(ctx):
         for i in ctx.cases(200, 20000):
             rng = ctx.case_rng("walk", i)
             cfg = {"prepare": rng.choice(["none", "none", "sync-ok", "sync-ok", "fired-ok", "sync-raise-odd", "deferred"]), "wc3": True,
-                   "late": rng.random() < 0.3, "connect": [rng.choice(["async", "async", "async", "syncfail", "syncok"]) for _ in range(rng.randrange(1, 6))]}
+                   "late": rng.random() < 0.3, "lostraises": rng.random() < 0.25, "connect": [rng.choice(["async", "async", "async", "syncfail", "syncok"]) for _ in range(rng.randrange(1, 6))]}
             w = World(ctx, cfg)
             for _ in range(300):
                 acts = w.actions()
